@@ -22,6 +22,7 @@ fn snapshot(s: &mut Sess) -> (String, String) {
 pub fn c19(s: &mut Sess, rng: &mut Rng, n: u64) {
     let ns = [1u64, 2, 3, 5, 1000, 10_000];
     for i in 0..n {
+        if i % 15 == 4 { precreate_crash_probe(s, rng); }
         let n1 = *rng.pick(&ns);
         let pre = i % 20 == 17; // the 65 792-directory tree: rarely
         s.begin_case(&format!("cfg kind=string n={n1} sync=1 pre={}", pre as u8));
@@ -137,6 +138,46 @@ pub fn c11(s: &mut Sess, rng: &mut Rng, n: u64) {
         s.op("iter");
         s.op("close");
         s.op("tracedrop");
+    }
+}
+
+
+/// C19 / C03, oracle-only probe on the real code: kill the FIRST open of a database with
+/// `pre_create_cas_dirs = true` somewhere inside the creation of the directory tree, then open
+/// again (same flag, then the other flag): the store must be fully usable — every put must find
+/// its directory — whatever the settings file and the half-made tree say.
+pub fn precreate_crash_probe(s: &mut Sess, rng: &mut Rng) {
+    let k = match rng.below(4) { 0 => rng.range(4, 40), 1 => rng.range(200, 300), 2 => rng.range(1_000, 60_000), _ => rng.range(65_700, 65_800) };
+    let mut lines: Vec<String> = vec!["cfg kind=bytes n=5 sync=1 pre=1".into(), format!("crashnext {k}"), "open".into()];
+    lines.push("open".into());
+    let contents: Vec<Vec<u8>> = (0..10u8).map(|i| vec![b'p', i, rng.below(256) as u8, rng.below(256) as u8]).collect();
+    for (i, c) in contents.iter().enumerate() { lines.push(format!("put {} ={}", hx(&[b'k', i as u8]), hx(c))); }
+    for i in 0..contents.len() { lines.push(format!("get {}", hx(&[b'k', i as u8]))); }
+    lines.push("close".into());
+    let ctx = format!(" [real-only probe, replay by sending these lines to `cvh worker` under LD_PRELOAD=interpose/fsio.so on an empty directory: {}]", lines.join(" | "));
+    let r = s.probe_real(true, &lines);
+    s.out.count("c19.precreate-crash-probe");
+    // lines: 0 cfg, 1 crashnext, 2 open (dies or completes), 3 open, 4.. puts, gets, close
+    let died = r.get(2).map_or(true, |x| x.is_none());
+    s.out.count(if died { "c19.probe.killed-inside-creation" } else { "c19.probe.creation-completed" });
+    let reopen = r.get(3).cloned().flatten().unwrap_or_default();
+    // (if the first open completed, the second `open` is answered `already-open-in-worker`)
+    if died && !reopen.starts_with("ok") { s.out.oracle_fail(format!("C19: open after a kill at call {k} of a pre-creating first open failed: `{reopen}`{ctx}")); return; }
+    for (i, c) in contents.iter().enumerate() {
+        let p = r.get(4 + i).cloned().flatten().unwrap_or_else(|| "died".into());
+        if p != "ok" { s.out.oracle_fail(format!("C19: after a kill at call {k} of a pre-creating first open and a reopen, put #{i} returned `{p}` (the recovered store must be fully usable){ctx}")); return; }
+        let g = r.get(4 + contents.len() + i).cloned().flatten().unwrap_or_else(|| "died".into());
+        let want = format!("found {} {}", c.len(), hx(blake3::hash(c).as_bytes()));
+        if g != want { s.out.oracle_fail(format!("C19: after a kill at call {k} of a pre-creating first open, get #{i} returned `{g}`, expected `{want}`{ctx}")); return; }
+    }
+    // the other flag on the next open: the stored choice wins, puts still work
+    let mut lines2: Vec<String> = vec!["cfg kind=bytes n=5 sync=1 pre=0".into(), "open".into()];
+    for i in 0..4u8 { lines2.push(format!("put {} ={}", hx(&[b'q', i]), hx(&[b'z', i, rng.below(256) as u8]))); }
+    lines2.push("close".into());
+    let r2 = s.probe_real(false, &lines2);
+    for (i, x) in r2.iter().enumerate().skip(1) {
+        let v = x.clone().unwrap_or_else(|| "died".into());
+        if !(v.starts_with("ok")) { s.out.oracle_fail(format!("C19: after the interrupted pre-creation, line `{}` with the other flag returned `{v}`{ctx}", lines2[i])); return; }
     }
 }
 
